@@ -95,15 +95,29 @@ func HarnessC03_chain() {
 	}
 	names := []string{"a", "a.b", "a.b.c", "a.b.c.d"}[:depth]
 	renamed := []string{"x", "y", "z", "q"}[:depth]
+	sameExt := false
+	if ndChoice(3) == 0 {
+		// layer names that are string-suffixes of one another, all with the
+		// same extension (a.yaml <- a.a.yaml <- a.a.a.yaml; b.yaml <- a.b.yaml)
+		names = []string{"a", "a.a", "a.a.a", "a.a.a.a"}[:depth]
+		renamed = []string{"b", "a.b", "c.a.b", "d.c.a.b"}[:depth]
+		sameExt = true
+	}
 	contents := []map[string]any{}
 	top, top2 := "", ""
 	for i := 0; i < depth; i++ {
 		c := c03Content(i)
 		contents = append(contents, c)
 		e := c03Ext()
+		if sameExt {
+			e = "yaml"
+		}
 		top = names[i] + "." + e
 		vfsAddFile(top, c)
 		e2 := c03Ext()
+		if sameExt {
+			e2 = "yaml"
+		}
 		top2 = renamed[i] + "." + e2
 		if i == 0 {
 			vfsAddFile(top2, c)
